@@ -15,6 +15,7 @@ RULE = ('every non-decreasing timestamp sequence built from gaps {0,1,2,3} (gaps
         'timestamps, at top level and under group_by with every interleaving of two keys. The sequence of non-empty windows '
         '(output of to_list and lifetimes at the head of the inner pipeline) is compared with the two-inequality session '
         'model. Non-trivial = at least two windows.')
+DEEP_PROBES = ('datetime gaps of a day and more, fractional-second gaps and timeouts, 4 200 live keys')
 ASSUMPTIONS = ['timestamps are non-decreasing per key (stated by the property)',
                'empty windows opened eagerly by the implementation are not compared (the property does not speak about them)',
                'timeouts other than 3 (active) and 2 (inactive) and gaps above 3 are not covered']
